@@ -30,6 +30,7 @@ def dispatch (j : Json) : Except String Json := do
   | "major_filter" => opMajorFilter j
   | "minor_filter" => opMinorFilter j
   | "cn_build" => opCNBuild j
+  | "cn_spec" => opCNSpec j
   | "cn_filter" => opCNFilter j
   | "cn_fold" => opCNFold j
   | "cn_decision" => opCNDecision j
